@@ -42,7 +42,7 @@ CHECKS = {
             TECH + "fault enumeration over export crash points per generated model + seeded export/perturb/freeze histories; role-based reference oracle",
             "4 C14"),
     "C07": ("Q+T", "exploration",
-            "Quantizer half: the knob is mutable state (python float or tf.Variable); seeded orders of update (float/const/Variable argument), variable build, tf.function trace, set_trainable and restart around calls; after every call y = surrogate + f*(fully quantized sibling - surrogate), f=1 bit-identical to the sibling, constructor-constant sibling agrees, a trace taken after the variable build follows later updates. Scheduler half: a virtual step clock emits Keras callback event sequences (interrupted fits, repeated fits with one callback, resumes with a fresh callback, duplicated train_begin, clock jumps) against the real QNoiseScheduler and real models; at every update step every knob-bearing quantizer found by an independent attribute walk (nested models, TimeDistributed / Bidirectional / RNN-around-cell wrappers, recurrent cells and their activation quantizers included) carries 0 before start, 1 from finish, the documented curve between, never decreasing; real model.fit runs validate the simulated event source. Sampling, not proof.",
+            "Quantizer half: the knob is mutable state (python float or tf.Variable); seeded orders of update (float/const/Variable argument), variable build, tf.function trace, set_trainable and restart around calls; after every call y = surrogate + f*(fully quantized sibling - surrogate), f=1 bit-identical to the sibling, constructor-constant sibling agrees, a trace taken after the variable build follows later updates. Scheduler half: a virtual step clock emits Keras callback event sequences (interrupted fits, repeated fits with one callback, resumes with a fresh callback, duplicated train_begin, clock jumps) against the real QNoiseScheduler and real models; at every update step every knob-bearing quantizer found by an independent attribute walk (nested models, TimeDistributed / Bidirectional / RNN-around-cell wrappers, recurrent cells and their activation quantizers included) carries 0 before start, 1 from finish, the documented curve between, never decreasing; real model.fit runs validate the simulated event source, and learning-rate-0 fits on lazily built and functional models compare the loss reported by the compiled train step with the eager loss at the scheduled factor (the factor the traced step really used). Sampling, not proof.",
             BASE + "simulated fits do not train weights (the property does not depend on them); traces taken before the variable build and traced auto-scale quantizers are not judged (TensorFlow constant capture / graph float reassociation).",
             TECH + "virtual step clock driving the real callback with injected interrupts/resumes/clock jumps + seeded update/build/trace orderings on the knob; shadow reference model of the schedule",
             "4 C07"),
